@@ -1,1 +1,778 @@
-//! Shared alphabets (rule / request universes) used by several property modules.
+//! Rule / request universes for the router properties (C01, C02, C12, C17) and the flat reference
+//! predicate `sat`, written from the property statement on the *specification* of a rule (never on
+//! `Route`).
+
+use chrono::{DateTime, Datelike, NaiveTime, Utc, Weekday};
+use redirectionio::api::Rule;
+use redirectionio::http::Request;
+use redirectionio::RouterConfig;
+use regex::RegexBuilder;
+use serde::{Deserialize, Serialize};
+use serde_json::{json, Value};
+use std::net::IpAddr;
+
+pub const DIMS: usize = 7;
+pub const DIM_NAMES: [&str; DIMS] = ["scheme", "host", "ip", "method", "headers", "datetime", "path"];
+
+#[derive(Clone, Debug, Serialize, Deserialize, PartialEq, Eq)]
+pub struct HeaderCond {
+    pub kind: String,
+    pub name: String,
+    pub value: Option<String>,
+}
+
+#[derive(Clone, Debug, Serialize, Deserialize, PartialEq, Eq, Default)]
+pub struct RuleSpec {
+    pub id: String,
+    pub label: String,
+    pub scheme: Option<String>,
+    pub host: Option<String>,
+    /// (in_range?, cidr text)
+    pub ips: Option<Vec<(bool, String)>>,
+    pub methods: Option<Vec<String>>,
+    pub exclude_methods: Option<bool>,
+    pub headers: Vec<HeaderCond>,
+    pub datetime: Option<Vec<(Option<String>, Option<String>)>>,
+    pub time: Option<Vec<(Option<String>, Option<String>)>>,
+    pub weekdays: Option<Vec<String>>,
+    pub path: String,
+    pub query: Option<String>,
+    /// (name, regex)
+    pub markers: Vec<(String, String)>,
+    pub rank: u16,
+    /// extra action fields merged into the rule JSON (status code, target, filters ...)
+    pub extra: Option<Value>,
+}
+
+impl RuleSpec {
+    pub fn base(id: &str) -> RuleSpec {
+        RuleSpec { id: id.to_string(), label: "base".into(), path: "/a".into(), rank: 1, ..Default::default() }
+    }
+
+    pub fn to_json(&self) -> Value {
+        let ips: Option<Vec<Value>> = self
+            .ips
+            .as_ref()
+            .map(|l| l.iter().map(|(inr, c)| if *inr { json!({"in_range": c}) } else { json!({"not_in_range": c}) }).collect());
+        let headers: Option<Vec<Value>> = if self.headers.is_empty() {
+            None
+        } else {
+            Some(self.headers.iter().map(|h| json!({"type": h.kind, "name": h.name, "value": h.value})).collect())
+        };
+        let mut source = json!({
+            "scheme": self.scheme, "host": self.host, "ips": ips, "path": self.path, "query": self.query,
+            "headers": headers, "methods": self.methods, "exclude_methods": self.exclude_methods,
+            "response_status_codes": null, "exclude_response_status_codes": null, "sampling": null,
+        });
+        if let Some(dt) = &self.datetime {
+            source["datetime"] = json!(dt.iter().map(|(a, b)| json!([a, b])).collect::<Vec<_>>());
+        }
+        if let Some(t) = &self.time {
+            source["time"] = json!(t.iter().map(|(a, b)| json!([a, b])).collect::<Vec<_>>());
+        }
+        if let Some(w) = &self.weekdays {
+            source["weekdays"] = json!(w);
+        }
+        let markers: Vec<Value> = self.markers.iter().map(|(n, r)| json!({"name": n, "regex": r, "transformers": []})).collect();
+        let mut rule = json!({
+            "id": self.id, "source": source, "target": null, "status_code": null, "rank": self.rank, "markers": markers,
+            "body_filters": null, "header_filters": null, "log_override": null, "reset": null, "stop": null, "examples": null,
+            "redirect_unit_id": null, "configuration_log_unit_id": null, "configuration_reset_unit_id": null, "target_hash": null,
+        });
+        if let Some(Value::Object(extra)) = &self.extra {
+            for (k, v) in extra {
+                if k == "source" {
+                    if let Value::Object(se) = v {
+                        for (sk, sv) in se {
+                            rule["source"][sk] = sv.clone();
+                        }
+                    }
+                } else {
+                    rule[k] = v.clone();
+                }
+            }
+        }
+        rule
+    }
+
+    pub fn to_rule(&self) -> Rule {
+        serde_json::from_value(self.to_json()).expect("rule spec deserialises")
+    }
+
+    pub fn has_host(&self) -> bool {
+        matches!(&self.host, Some(h) if !h.is_empty())
+    }
+
+    pub fn scheme_scope(&self) -> Option<&str> {
+        match &self.scheme {
+            Some(s) if !s.is_empty() => Some(s.as_str()),
+            _ => None,
+        }
+    }
+}
+
+// ---------------------------------------------------------------------------------------------
+// configurations
+
+#[derive(Clone, Debug, Serialize, Deserialize, PartialEq, Eq)]
+pub struct Cfg {
+    pub ignore_host_case: bool,
+    pub ignore_header_case: bool,
+    pub ignore_path_and_query_case: bool,
+    pub always_match_any_host: bool,
+}
+
+impl Cfg {
+    pub fn from_bits(bits: u32) -> Cfg {
+        Cfg {
+            ignore_host_case: bits & 1 != 0,
+            ignore_header_case: bits & 2 != 0,
+            ignore_path_and_query_case: bits & 4 != 0,
+            always_match_any_host: bits & 8 != 0,
+        }
+    }
+    pub fn to_router_config(&self) -> RouterConfig {
+        let mut c = RouterConfig::default();
+        c.ignore_host_case = self.ignore_host_case;
+        c.ignore_header_case = self.ignore_header_case;
+        c.ignore_path_and_query_case = self.ignore_path_and_query_case;
+        c.always_match_any_host = self.always_match_any_host;
+        c
+    }
+}
+
+// ---------------------------------------------------------------------------------------------
+// probe requests: one value per dimension
+
+#[derive(Clone, Debug, Serialize, Deserialize, PartialEq, Eq)]
+pub struct Probe {
+    pub scheme: Option<String>,
+    pub host: Option<String>,
+    pub ip: Option<String>,
+    pub method: Option<String>,
+    pub headers: Vec<(String, String)>,
+    pub at: Option<String>,
+    pub path: String,
+}
+
+pub const T0: &str = "2024-03-04T10:00:00Z"; // a Monday
+pub const T1: &str = "2024-03-06T12:00:00Z"; // a Wednesday
+
+pub struct ProbeSpace {
+    pub schemes: Vec<Option<String>>,
+    pub hosts: Vec<Option<String>>,
+    pub ips: Vec<Option<String>>,
+    pub methods: Vec<Option<String>>,
+    pub headers: Vec<Vec<(String, String)>>,
+    pub times: Vec<Option<String>>,
+    pub paths: Vec<String>,
+}
+
+fn s(x: &str) -> Option<String> {
+    Some(x.to_string())
+}
+
+impl ProbeSpace {
+    pub fn standard() -> ProbeSpace {
+        let h = |l: &[(&str, &str)]| -> Vec<(String, String)> { l.iter().map(|(a, b)| (a.to_string(), b.to_string())).collect() };
+        ProbeSpace {
+            schemes: vec![s("http"), s("https"), None, s("ftp")],
+            hosts: vec![s("a.example"), s("A.Example"), s("cat.example"), s("cow.example"), s("Cat.Example"), s("other.org"), None, s("cat.example.org")],
+            ips: vec![
+                s("10.0.0.1"),
+                s("8.8.8.8"),
+                s("10.1.0.1"),
+                s("192.168.0.1"),
+                s("9.255.255.255"),
+                s("10.0.0.0"),
+                s("10.255.255.255"),
+                s("11.0.0.0"),
+                s("::1"),
+                None,
+            ],
+            methods: vec![None, s("GET"), s("POST"), s("PUT"), s("get")],
+            headers: vec![
+                h(&[]),
+                h(&[("X", "v")]),
+                h(&[("x", "v")]),
+                h(&[("X", "V")]),
+                h(&[("X", "w")]),
+                h(&[("X", "avb")]),
+                h(&[("X", "v7")]),
+                h(&[("X", "w"), ("X", "v")]),
+                h(&[("X", "v"), ("Y", "1")]),
+                h(&[("Y", "1")]),
+                h(&[("Z", "v")]),
+                h(&[("X", "")]),
+            ],
+            times: vec![
+                s("2024-03-05T10:00:00Z"), // Tue, inside [T0,T1), inside 09-17
+                s("2024-03-04T09:59:59Z"), // Mon, 1s before T0
+                s(T0),
+                s("2024-03-06T11:59:59Z"), // Wed, 1s before T1
+                s(T1),
+                s("2024-03-05T08:59:59Z"), // Tue before 09:00
+                s("2024-03-05T09:00:00Z"),
+                s("2024-03-05T16:59:59Z"),
+                s("2024-03-05T17:00:00Z"),
+                s("2024-03-07T10:00:00Z"), // Thu, after T1
+                s("2024-05-05T10:00:00Z"), // Sun, inside second range
+                None,
+            ],
+            paths: vec![
+                "/a".into(),
+                "/A".into(),
+                "/a?x=1".into(),
+                "/a/b".into(),
+                "/a/B".into(),
+                "/a/b/b".into(),
+                "/a/7".into(),
+                "/b".into(),
+                "/a/".into(),
+                "/a/b/c".into(),
+                "/a?x=2".into(),
+            ],
+        }
+    }
+
+    pub fn sizes(&self) -> [usize; DIMS] {
+        [self.schemes.len(), self.hosts.len(), self.ips.len(), self.methods.len(), self.headers.len(), self.times.len(), self.paths.len()]
+    }
+
+    pub fn probe(&self, idx: &[usize; DIMS]) -> Probe {
+        Probe {
+            scheme: self.schemes[idx[0]].clone(),
+            host: self.hosts[idx[1]].clone(),
+            ip: self.ips[idx[2]].clone(),
+            method: self.methods[idx[3]].clone(),
+            headers: self.headers[idx[4]].clone(),
+            at: self.times[idx[5]].clone(),
+            path: self.paths[idx[6]].clone(),
+        }
+    }
+}
+
+impl Probe {
+    /// Build the request the way a proxy does: documented constructor, then headers, then remote address / time.
+    pub fn to_request(&self, rc: &RouterConfig) -> Request {
+        let ip: Option<IpAddr> = self.ip.as_ref().map(|i| i.parse().expect("probe ip"));
+        let mut r = Request::from_config(rc, self.path.clone(), self.host.clone(), self.scheme.clone(), self.method.clone(), ip, None);
+        for (n, v) in &self.headers {
+            r.add_header(n.clone(), v.clone(), rc.ignore_header_case);
+        }
+        r.created_at = self.at.as_ref().map(|t| t.parse::<DateTime<Utc>>().expect("probe time"));
+        r
+    }
+}
+
+// ---------------------------------------------------------------------------------------------
+// reference predicate, one function per trigger dimension. Some(true/false) or None = "the statement
+// does not say" (the pair is then not asserted either way).
+
+fn marker_regex(template: &str, markers: &[(String, String)], ignore_case: bool, anchored: bool) -> Option<regex::Regex> {
+    // escaped literal text with each @name (longest name first) replaced by its expression
+    let mut pattern = regex::escape(template);
+    let mut ms: Vec<&(String, String)> = markers.iter().collect();
+    ms.sort_by(|a, b| b.0.len().cmp(&a.0.len()));
+    let mut used = false;
+    for (n, r) in ms {
+        let needle = format!("@{n}");
+        if pattern.contains(&needle) {
+            used = true;
+            pattern = pattern.replace(&needle, &format!("(?:{r})"));
+        }
+    }
+    if !used {
+        return None;
+    }
+    let full = if anchored { format!("^(?:{pattern})$") } else { pattern };
+    RegexBuilder::new(&full).case_insensitive(ignore_case).build().ok()
+}
+
+pub fn sat_scheme(r: &RuleSpec, p: &Probe) -> Option<bool> {
+    Some(match r.scheme_scope() {
+        None => true,
+        Some(sc) => p.scheme.as_deref() == Some(sc),
+    })
+}
+
+pub fn sat_host(r: &RuleSpec, p: &Probe, cfg: &Cfg) -> Option<bool> {
+    let host = match &r.host {
+        Some(h) if !h.is_empty() => h,
+        _ => return Some(true),
+    };
+    let req = match &p.host {
+        None => return Some(false),
+        Some(h) => h,
+    };
+    Some(match marker_regex(host, &r.markers, cfg.ignore_host_case, true) {
+        Some(re) => re.is_match(req),
+        None => {
+            if cfg.ignore_host_case {
+                host.to_lowercase() == req.to_lowercase()
+            } else {
+                host == req
+            }
+        }
+    })
+}
+
+pub fn sat_ip(r: &RuleSpec, p: &Probe) -> Option<bool> {
+    let ips = match &r.ips {
+        None => return Some(true),
+        Some(l) => l,
+    };
+    let parsed: Vec<(bool, cidr::AnyIpCidr)> = ips.iter().filter_map(|(inr, c)| c.parse::<cidr::AnyIpCidr>().ok().map(|c| (*inr, c))).collect();
+    if parsed.is_empty() {
+        return Some(true);
+    }
+    match &p.ip {
+        None => {
+            if parsed.iter().all(|(inr, _)| *inr) {
+                Some(false)
+            } else {
+                None
+            }
+        }
+        Some(ip) => {
+            let ip: IpAddr = ip.parse().unwrap();
+            Some(parsed.iter().any(|(inr, c)| if *inr { c.contains(&ip) } else { !c.contains(&ip) }))
+        }
+    }
+}
+
+pub fn sat_method(r: &RuleSpec, p: &Probe) -> Option<bool> {
+    let methods = match &r.methods {
+        None => return Some(true),
+        Some(m) if m.is_empty() => return Some(true),
+        Some(m) => m,
+    };
+    let req = p.method.as_deref().unwrap_or("GET");
+    let listed = methods.iter().any(|m| m == req);
+    match r.exclude_methods {
+        None => Some(listed),
+        Some(true) => Some(!listed),
+        Some(false) => None,
+    }
+}
+
+pub fn sat_headers(r: &RuleSpec, p: &Probe, cfg: &Cfg) -> Option<bool> {
+    for c in &r.headers {
+        let values: Vec<String> = p
+            .headers
+            .iter()
+            .filter(|(n, _)| n.to_lowercase() == c.name.to_lowercase())
+            .map(|(_, v)| if cfg.ignore_header_case { v.to_lowercase() } else { v.clone() })
+            .collect();
+        let want = c.value.as_ref().map(|v| if cfg.ignore_header_case { v.to_lowercase() } else { v.clone() });
+        let ok = match (c.kind.as_str(), &want) {
+            ("is_defined", _) => !values.is_empty(),
+            ("is_not_defined", _) => values.is_empty(),
+            ("is_equals", Some(w)) => values.iter().any(|v| v == w),
+            ("is_not_equal_to", Some(w)) => values.iter().all(|v| v != w),
+            ("contains", Some(w)) => values.iter().any(|v| v.contains(w.as_str())),
+            ("does_not_contain", Some(w)) => values.iter().all(|v| !v.contains(w.as_str())),
+            ("starts_with", Some(w)) => values.iter().any(|v| v.starts_with(w.as_str())),
+            ("ends_with", Some(w)) => values.iter().any(|v| v.ends_with(w.as_str())),
+            ("match_regex", Some(_)) => {
+                // pattern = the rule's own text (not lower-cased), unanchored by design; conditions without a marker are skipped
+                match marker_regex(c.value.as_ref().unwrap(), &r.markers, false, false) {
+                    None => continue,
+                    Some(re) => values.iter().any(|v| re.is_match(v)),
+                }
+            }
+            // unknown kind or missing value: the condition is skipped
+            _ => continue,
+        };
+        if !ok {
+            return Some(false);
+        }
+    }
+    Some(true)
+}
+
+fn parse_dt(x: &Option<String>) -> Option<DateTime<Utc>> {
+    x.as_ref().and_then(|s| s.parse::<DateTime<Utc>>().ok())
+}
+fn parse_time(x: &Option<String>) -> Option<NaiveTime> {
+    x.as_ref().and_then(|s| s.parse::<NaiveTime>().ok())
+}
+
+pub fn sat_datetime(r: &RuleSpec, p: &Probe) -> Option<bool> {
+    let weekdays: Option<Vec<Weekday>> = r.weekdays.as_ref().map(|l| l.iter().filter_map(|w| w.parse::<Weekday>().ok()).collect::<Vec<_>>()).filter(|l| !l.is_empty());
+    let dt = r.datetime.as_ref().filter(|l| !l.is_empty());
+    let tm = r.time.as_ref().filter(|l| !l.is_empty());
+    if dt.is_none() && tm.is_none() && weekdays.is_none() {
+        return Some(true);
+    }
+    let at = match &p.at {
+        None => return Some(false),
+        Some(t) => t.parse::<DateTime<Utc>>().unwrap(),
+    };
+    if let Some(ranges) = dt {
+        let ok = ranges.iter().any(|(a, b)| {
+            let (a, b) = (parse_dt(a), parse_dt(b));
+            a.map_or(true, |a| at >= a) && b.map_or(true, |b| at < b)
+        });
+        if !ok {
+            return Some(false);
+        }
+    }
+    if let Some(ranges) = tm {
+        let t = at.naive_utc().time();
+        let ok = ranges.iter().any(|(a, b)| {
+            let (a, b) = (parse_time(a), parse_time(b));
+            a.map_or(true, |a| t >= a) && b.map_or(true, |b| t < b)
+        });
+        if !ok {
+            return Some(false);
+        }
+    }
+    if let Some(days) = weekdays {
+        if !days.contains(&at.weekday()) {
+            return Some(false);
+        }
+    }
+    Some(true)
+}
+
+/// ASCII-only paths here (normalisation is C09's subject): the rule side is path[?sorted query]
+pub fn sat_path(r: &RuleSpec, p: &Probe, cfg: &Cfg) -> Option<bool> {
+    let mut rule_path = r.path.clone();
+    if let Some(q) = &r.query {
+        if !q.is_empty() {
+            rule_path.push('?');
+            rule_path.push_str(q);
+        }
+    }
+    Some(match marker_regex(&rule_path, &r.markers, cfg.ignore_path_and_query_case, true) {
+        Some(re) => re.is_match(&p.path),
+        None => {
+            if cfg.ignore_path_and_query_case {
+                rule_path.to_lowercase() == p.path.to_lowercase()
+            } else {
+                rule_path == p.path
+            }
+        }
+    })
+}
+
+pub fn sat_dim(dim: usize, r: &RuleSpec, p: &Probe, cfg: &Cfg) -> Option<bool> {
+    match dim {
+        0 => sat_scheme(r, p),
+        1 => sat_host(r, p, cfg),
+        2 => sat_ip(r, p),
+        3 => sat_method(r, p),
+        4 => sat_headers(r, p, cfg),
+        5 => sat_datetime(r, p),
+        6 => sat_path(r, p, cfg),
+        _ => unreachable!(),
+    }
+}
+
+/// Per-rule, per-dimension truth table over the probe space: 1 = satisfied, 0 = not, 2 = unspecified
+pub struct SatTable {
+    pub table: Vec<Vec<u8>>,
+}
+
+impl SatTable {
+    pub fn build(r: &RuleSpec, space: &ProbeSpace, cfg: &Cfg) -> SatTable {
+        let sizes = space.sizes();
+        let mut table = Vec::new();
+        for dim in 0..DIMS {
+            let mut row = Vec::new();
+            for v in 0..sizes[dim] {
+                let mut idx = [0usize; DIMS];
+                idx[dim] = v;
+                let p = space.probe(&idx);
+                row.push(match sat_dim(dim, r, &p, cfg) {
+                    Some(true) => 1,
+                    Some(false) => 0,
+                    None => 2,
+                });
+            }
+            table.push(row);
+        }
+        SatTable { table }
+    }
+
+    /// Some(bool) or None when some dimension is unspecified and no dimension is false
+    pub fn sat(&self, idx: &[usize; DIMS]) -> Option<bool> {
+        let mut unknown = false;
+        for dim in 0..DIMS {
+            match self.table[dim][idx[dim]] {
+                0 => return Some(false),
+                2 => unknown = true,
+                _ => {}
+            }
+        }
+        if unknown {
+            None
+        } else {
+            Some(true)
+        }
+    }
+
+    /// first probe value of every dimension that satisfies the rule (0 when none does)
+    pub fn satisfying(&self) -> [usize; DIMS] {
+        let mut idx = [0usize; DIMS];
+        for dim in 0..DIMS {
+            idx[dim] = self.table[dim].iter().position(|x| *x == 1).unwrap_or(0);
+        }
+        idx
+    }
+}
+
+/// Expected match set (ids), applying the any-host policy per scheme scope on top of `sat`.
+/// Returns (must_match, may_match): ids whose answer the statement fixes, and ids left open.
+pub fn expected_matches(live: &[(&RuleSpec, &SatTable)], idx: &[usize; DIMS], space: &ProbeSpace, cfg: &Cfg) -> (Vec<String>, Vec<String>) {
+    let req_scheme = space.schemes[idx[0]].as_deref();
+    let mut must = Vec::new();
+    let mut may = Vec::new();
+    // scopes: None (rules for any scheme) and the request's scheme
+    let mut scopes: Vec<Option<&str>> = vec![None];
+    if let Some(sc) = req_scheme {
+        scopes.push(Some(sc));
+    }
+    for scope in scopes {
+        let in_scope: Vec<&(&RuleSpec, &SatTable)> = live.iter().filter(|(r, _)| r.scheme_scope() == scope).collect();
+        let host_specific: Vec<(&RuleSpec, Option<bool>)> = in_scope.iter().filter(|(r, _)| r.has_host()).map(|(r, t)| (*r, t.sat(idx))).collect();
+        let any_host: Vec<(&RuleSpec, Option<bool>)> = in_scope.iter().filter(|(r, _)| !r.has_host()).map(|(r, t)| (*r, t.sat(idx))).collect();
+        let mut specific_matched = false;
+        let mut specific_unknown = false;
+        for (r, s) in &host_specific {
+            match s {
+                Some(true) => {
+                    specific_matched = true;
+                    must.push(r.id.clone());
+                }
+                None => {
+                    specific_unknown = true;
+                    may.push(r.id.clone());
+                }
+                _ => {}
+            }
+        }
+        for (r, s) in &any_host {
+            match s {
+                Some(true) => {
+                    if cfg.always_match_any_host || (!specific_matched && !specific_unknown) {
+                        must.push(r.id.clone());
+                    } else if !specific_matched && specific_unknown {
+                        may.push(r.id.clone());
+                    }
+                }
+                None => {
+                    if cfg.always_match_any_host || !specific_matched {
+                        may.push(r.id.clone());
+                    }
+                }
+                _ => {}
+            }
+        }
+    }
+    must.sort();
+    may.sort();
+    (must, may)
+}
+
+// ---------------------------------------------------------------------------------------------
+// the star-and-pairs rule universe
+
+fn hc(kind: &str, name: &str, value: Option<&str>) -> HeaderCond {
+    HeaderCond { kind: kind.into(), name: name.into(), value: value.map(|v| v.to_string()) }
+}
+
+/// All single-dimension deviations from the base rule, as (dimension, label, mutator)
+pub fn deviations() -> Vec<(usize, String, Box<dyn Fn(&mut RuleSpec) + Send + Sync>)> {
+    let mut d: Vec<(usize, String, Box<dyn Fn(&mut RuleSpec) + Send + Sync>)> = Vec::new();
+    let mut add = |dim: usize, label: &str, f: Box<dyn Fn(&mut RuleSpec) + Send + Sync>| d.push((dim, label.to_string(), f));
+    // scheme
+    add(0, "scheme=''", Box::new(|r| r.scheme = Some("".into())));
+    add(0, "scheme=http", Box::new(|r| r.scheme = Some("http".into())));
+    add(0, "scheme=https", Box::new(|r| r.scheme = Some("https".into())));
+    // host
+    add(1, "host=''", Box::new(|r| r.host = Some("".into())));
+    add(1, "host=a.example", Box::new(|r| r.host = Some("a.example".into())));
+    add(1, "host=A.Example", Box::new(|r| r.host = Some("A.Example".into())));
+    add(
+        1,
+        "host=@h.example(cat|dog)",
+        Box::new(|r| {
+            r.host = Some("@h.example".into());
+            r.markers.push(("h".into(), "(cat|dog)".into()));
+        }),
+    );
+    add(
+        1,
+        "host=@h.example[a-z]+",
+        Box::new(|r| {
+            r.host = Some("@h.example".into());
+            r.markers.push(("h".into(), "[a-z]+".into()));
+        }),
+    );
+    // ips
+    add(2, "ip=in10/8", Box::new(|r| r.ips = Some(vec![(true, "10.0.0.0/8".into())])));
+    add(2, "ip=notin10/8", Box::new(|r| r.ips = Some(vec![(false, "10.0.0.0/8".into())])));
+    add(2, "ip=in10/8|in192.168/16", Box::new(|r| r.ips = Some(vec![(true, "10.0.0.0/8".into()), (true, "192.168.0.0/16".into())])));
+    add(2, "ip=in10/8|in10.1/16", Box::new(|r| r.ips = Some(vec![(true, "10.0.0.0/8".into()), (true, "10.1.0.0/16".into())])));
+    add(2, "ip=garbage", Box::new(|r| r.ips = Some(vec![(true, "garbage".into())])));
+    // methods
+    add(3, "methods=[]", Box::new(|r| r.methods = Some(vec![])));
+    add(3, "methods=[GET]", Box::new(|r| r.methods = Some(vec!["GET".into()])));
+    add(3, "methods=[GET,POST]", Box::new(|r| r.methods = Some(vec!["GET".into(), "POST".into()])));
+    add(
+        3,
+        "exclude[GET]",
+        Box::new(|r| {
+            r.methods = Some(vec!["GET".into()]);
+            r.exclude_methods = Some(true);
+        }),
+    );
+    add(
+        3,
+        "exclude[GET,POST]",
+        Box::new(|r| {
+            r.methods = Some(vec!["GET".into(), "POST".into()]);
+            r.exclude_methods = Some(true);
+        }),
+    );
+    // headers
+    add(4, "X is_defined", Box::new(|r| r.headers = vec![hc("is_defined", "X", None)]));
+    add(4, "X is_not_defined", Box::new(|r| r.headers = vec![hc("is_not_defined", "X", None)]));
+    add(4, "X is_equals v", Box::new(|r| r.headers = vec![hc("is_equals", "X", Some("v"))]));
+    add(4, "X is_not_equal_to v", Box::new(|r| r.headers = vec![hc("is_not_equal_to", "X", Some("v"))]));
+    add(4, "X contains v", Box::new(|r| r.headers = vec![hc("contains", "X", Some("v"))]));
+    add(4, "X does_not_contain v", Box::new(|r| r.headers = vec![hc("does_not_contain", "X", Some("v"))]));
+    add(4, "X starts_with v", Box::new(|r| r.headers = vec![hc("starts_with", "X", Some("v"))]));
+    add(4, "X ends_with v", Box::new(|r| r.headers = vec![hc("ends_with", "X", Some("v"))]));
+    add(
+        4,
+        "X match_regex v@d",
+        Box::new(|r| {
+            r.headers = vec![hc("match_regex", "X", Some("v@d"))];
+            r.markers.push(("d".into(), "[0-9]+".into()));
+        }),
+    );
+    add(4, "X=v&Y defined", Box::new(|r| r.headers = vec![hc("is_equals", "X", Some("v")), hc("is_defined", "Y", None)]));
+    add(4, "X=v&Y not defined", Box::new(|r| r.headers = vec![hc("is_equals", "X", Some("v")), hc("is_not_defined", "Y", None)]));
+    add(4, "x(lower) is_equals V(upper)", Box::new(|r| r.headers = vec![hc("is_equals", "x", Some("V"))]));
+    add(4, "unknown kind", Box::new(|r| r.headers = vec![hc("sounds_like", "X", Some("v"))]));
+    add(4, "missing value", Box::new(|r| r.headers = vec![hc("is_equals", "X", None)]));
+    // date / time
+    let t0 = || Some(T0.to_string());
+    let t1 = || Some(T1.to_string());
+    add(5, "dt[T0,T1)", Box::new(move |r| r.datetime = Some(vec![(t0(), t1())])));
+    add(
+        5,
+        "dt two ranges",
+        Box::new(move |r| r.datetime = Some(vec![(t0(), t1()), (Some("2024-05-01T00:00:00Z".into()), Some("2024-06-01T00:00:00Z".into()))])),
+    );
+    add(5, "dt open start", Box::new(move |r| r.datetime = Some(vec![(None, t1())])));
+    add(5, "dt open end", Box::new(move |r| r.datetime = Some(vec![(t0(), None)])));
+    add(5, "dt unparsable end", Box::new(move |r| r.datetime = Some(vec![(t0(), Some("not a date".into()))])));
+    add(5, "time[09,17)", Box::new(|r| r.time = Some(vec![(Some("09:00:00".into()), Some("17:00:00".into()))])));
+    add(5, "weekdays[Mon,Tue]", Box::new(|r| r.weekdays = Some(vec!["Mon".into(), "Tue".into()])));
+    add(5, "weekdays unparsable", Box::new(|r| r.weekdays = Some(vec!["Blursday".into()])));
+    add(
+        5,
+        "dt+time+weekdays",
+        Box::new(move |r| {
+            r.datetime = Some(vec![(t0(), t1())]);
+            r.time = Some(vec![(Some("09:00:00".into()), Some("17:00:00".into()))]);
+            r.weekdays = Some(vec!["Mon".into(), "Tue".into()]);
+        }),
+    );
+    // path
+    add(6, "path=/A", Box::new(|r| r.path = "/A".into()));
+    add(
+        6,
+        "path=/a?x=1",
+        Box::new(|r| {
+            r.path = "/a".into();
+            r.query = Some("x=1".into());
+        }),
+    );
+    add(
+        6,
+        "path=/a/@m[a-z]+",
+        Box::new(|r| {
+            r.path = "/a/@m".into();
+            r.markers.push(("m".into(), "[a-z]+".into()));
+        }),
+    );
+    add(
+        6,
+        "path=/a/@m/b",
+        Box::new(|r| {
+            r.path = "/a/@m/b".into();
+            r.markers.push(("m".into(), "[a-z]+".into()));
+        }),
+    );
+    add(
+        6,
+        "path=/@m",
+        Box::new(|r| {
+            r.path = "/@m".into();
+            r.markers.push(("m".into(), "[a-z]+".into()));
+        }),
+    );
+    add(
+        6,
+        "path=/a/@n[0-9a-z]+",
+        Box::new(|r| {
+            r.path = "/a/@n".into();
+            r.markers.push(("n".into(), "[0-9a-z]+".into()));
+        }),
+    );
+    d
+}
+
+/// `pairs`: 0 = singles only, 1 = singles + a fixed selection of cross-dimension pairs, 2 = all pairs
+pub fn star_and_pairs_universe(pairs: u8) -> Vec<RuleSpec> {
+    let devs = deviations();
+    let mut out = vec![RuleSpec::base("u000")];
+    for (_, label, f) in &devs {
+        let mut r = RuleSpec::base(&format!("u{:03}", out.len()));
+        f(&mut r);
+        r.label = label.clone();
+        out.push(r);
+    }
+    if pairs > 0 {
+        for i in 0..devs.len() {
+            for j in i + 1..devs.len() {
+                if devs[i].0 == devs[j].0 {
+                    continue;
+                }
+                // selection for pairs == 1: a deterministic stride that touches every deviation at least once
+                if pairs == 1 && (i * 7 + j * 3) % 23 != 0 {
+                    continue;
+                }
+                let mut r = RuleSpec::base(&format!("u{:03}", out.len()));
+                (devs[i].2)(&mut r);
+                (devs[j].2)(&mut r);
+                // two deviations may both add a marker named the same: keep the first
+                let mut seen = std::collections::BTreeSet::new();
+                r.markers.retain(|(n, _)| seen.insert(n.clone()));
+                r.label = format!("{} & {}", devs[i].1, devs[j].1);
+                out.push(r);
+            }
+        }
+    }
+    // a few all-dimension rules: the k-th deviation of every dimension
+    for k in 0..6usize {
+        let mut r = RuleSpec::base(&format!("u{:03}", out.len()));
+        let mut labels = Vec::new();
+        for dim in 0..DIMS {
+            let of_dim: Vec<usize> = (0..devs.len()).filter(|i| devs[*i].0 == dim).collect();
+            let i = of_dim[(k * (dim + 1) + k / 2) % of_dim.len()];
+            (devs[i].2)(&mut r);
+            labels.push(devs[i].1.clone());
+        }
+        let mut seen = std::collections::BTreeSet::new();
+        r.markers.retain(|(n, _)| seen.insert(n.clone()));
+        r.label = format!("all: {}", labels.join(" & "));
+        out.push(r);
+    }
+    out
+}
